@@ -52,6 +52,14 @@ var Properties = map[string]PropertyDef{
 			Outside:   []string{"symbolic scalar bytes (E2 executes byte code concretely)", "window sizes 14–16 (n ≥ 8192)", "the per-curve wrappers that convert scalars to bytes"},
 		}
 	}},
+	"C09": {Cases: C09Cases, Config: func(tier string) Config {
+		return Config{
+			Functions: []string{"vsot.NewSuite/NewSender/NewReceiver", "vsot Sender.Round1/Round3/Round5, Receiver.Round2/Round4/Round6", "dlog/schnorr + fiatshamir proof inside VSOT", "ecbbot.NewSuite/NewSender/NewReceiver, Sender.Round1/Round3, Receiver.Round2", "ecbbot.Popf.Program/Eval, TaggedKeyAgreement", "hashing.HashIndexLengthPrefixed (real SHA-256 over interned encodings)"},
+			Bounds:    map[string]any{"instances": "Xi = 8 (thorough: up to 24), L = 1..3 (thorough 4) blocks", "choices": "concrete corpus of choice bytes (all-zero, all-one, mixed, single bits)", "randomness": "sender's and receiver's streams symbolic"},
+			Assumes:   []string{"random-oracle idealisation: hashes run for real over interned element encodings (provably equal elements ⇒ equal encodings; otherwise different)", "the model group satisfies curves.Curve/curves.Point through a facade with opaque coordinates (symalg/curve.go)", "fresh draws non-zero", "points an honest party transmits are not the identity (the peer's validation refuses the identity; probability Xi·L/q per run)"},
+			Outside:   []string{"SoftSpoken OT extension rounds, RVOLE (E1 covers their bit-level helpers only)", "deviating parties in the OT protocols", "real curves"},
+		}
+	}},
 	"C12": {Cases: C12Cases, Config: func(tier string) Config {
 		return Config{
 			Functions: []string{"serde.MarshalCBOR/UnmarshalCBOR (fxamacker/cbor strict mode, run natively)", "kw.Share / shamir.Share / feldman.LiftedShare / pedersen.Share / polynomials.Polynomial UnmarshalCBOR → constructors", "mat.Matrix / ModuleValuedMatrix / SquareMatrix UnmarshalCBOR", "msp.MSP.UnmarshalCBOR → NewMSP", "feldman.VerificationVector.UnmarshalCBOR → NewVerificationVector", "mpc.BasePublicMaterial.UnmarshalCBOR → NewBasePublicMaterial", "mpc.BaseShard.UnmarshalCBOR → NewBaseShard (share must lift to its public share)", "pedersencom.CommitmentKey/TrapdoorKey.UnmarshalCBOR", "elgamal.PublicKey/SecretKey.UnmarshalCBOR", "schnorrlike.PublicKey.UnmarshalCBOR"},
